@@ -349,3 +349,139 @@ class Run:
         os.makedirs(os.path.join(VERIF, "evidence"), exist_ok=True)
         with open(os.path.join(VERIF, "evidence", self.prop + ".json"), "w") as f:
             json.dump(ev, f, indent=1)
+
+
+# ----------------------------------------------------------------------------- binding G for render vectors
+
+def normval(v):
+    """Canonical form of a value JSON (spec side and Go side)."""
+    if not isinstance(v, dict):
+        return v
+    t = v.get("t")
+    if t == "hash":
+        ps = [(bytes(p[0]).decode("latin1"), normval(p[1])) for p in v.get("pairs", [])]
+        d = {}
+        for k, x in ps:
+            d[k] = x
+        return ("hash", tuple(sorted(d.items(), key=lambda kv: kv[0])))
+    if t == "arr":
+        return ("arr", tuple(normval(x) for x in v.get("els", [])))
+    if t == "num":
+        return ("num", v["q"]) if "q" in v else ("numf", v.get("f"))
+    if t == "str":
+        return ("str", bytes(v.get("s", [])).decode("latin1"))
+    if t == "bool":
+        return ("bool", bool(v.get("b")))
+    if t == "safe":
+        return ("safe", normval(v.get("v")), tuple(sorted(v.get("types") or [])))
+    if t == "macros":
+        return ("macros",)
+    return (t,)
+
+
+def normlog(log, writes=True):
+    out = []
+    for ev in log or []:
+        e = ev["e"]
+        if e == "w":
+            if not writes:
+                continue
+            d = bytes(ev.get("d") or [])
+            if not d:
+                continue
+            if out and out[-1][0] == "w":
+                out[-1] = ("w", out[-1][1] + d)
+            else:
+                out.append(("w", d))
+        elif e == "load":
+            out.append(("load", bytes(ev.get("name") or []).decode("latin1")))
+        elif e == "cb":
+            out.append(("cb", ev.get("kind"), ev.get("fn", ev.get("name")),
+                        tuple(normval(a) for a in ev.get("args") or []), ev.get("tname")))
+        elif e == "probe":
+            sc = ev.get("scope") or {}
+            if isinstance(sc, list):
+                sc = {}
+            out.append(("probe", normval(ev.get("k")), tuple(sorted((n, normval(x)) for n, x in sc.items())),
+                        ev.get("tname")))
+    return out
+
+
+def show(x):
+    if isinstance(x, bytes):
+        return x.decode("utf-8", "replace")
+    return x
+
+
+def compare_render(vec, o, check_log=True):
+    """Compares the observation of a render case with the reference. Returns None or (why, expected, observed)."""
+    exp = vec["exp"]
+    if o["st"] != "ok":
+        return ("did not terminate normally: " + o["st"], exp["status"], (o.get("err") or o.get("stderr") or "")[:1500])
+    ob = o["obs"]
+    if ob["status"] != exp["status"]:
+        return ("status: expected %s, observed %s" % (exp["status"], ob["status"]), exp["status"],
+                {"status": ob["status"], "err": ob.get("err"), "out": show(bytes(ob["out"]))})
+    if bytes(ob["out"]) != bytes(exp["out"]):
+        return ("output differs", show(bytes(exp["out"])), show(bytes(ob["out"])))
+    if check_log:
+        a, b = normlog(exp.get("log")), normlog(ob.get("log"))
+        if a != b:
+            for i in range(max(len(a), len(b))):
+                x = a[i] if i < len(a) else None
+                y = b[i] if i < len(b) else None
+                if x != y:
+                    kind = (x or y)[0]
+                    return ("event log differs at event %d (%s)" % (i, kind), repr(x), repr(y))
+    return None
+
+
+def crash_sig(o):
+    """A stable signature for panics/crashes: the first stick frame of the stack."""
+    txt = o.get("stack") or o.get("stderr") or ""
+    m = re.search(r"(github\.com/tyler-sommer/stick[^\s(]*)\(", txt)
+    fn = m.group(1) if m else "?"
+    msg = (o.get("err") or "")
+    if not msg:
+        m2 = re.search(r"(panic: [^\n]*|fatal error: [^\n]*)", txt)
+        msg = m2.group(1) if m2 else ""
+    msg = re.sub(r"\[[^\]]*\]|0x[0-9a-f]+|\d+", "#", msg)[:80]
+    return "%s in %s: %s" % (o.get("st"), fn.split("/")[-1], msg)
+
+
+def replay_vectors(run, vectors, nontrivial=None, sigfn=None, check_log=True, deadline_ms=2000):
+    """Binding G: replays TLC-printed vectors into the real code and compares the observables."""
+    cases = []
+    for v in vectors:
+        if v.get("oom"):
+            run.oom += 1
+            continue
+        cases.append(v)
+    if not cases:
+        return
+    send = []
+    for v in cases:
+        c = {k: x for k, x in v.items() if k not in ("exp",)}
+        send.append(c)
+    obs, hooks = run_pool(send, deadline_ms=deadline_ms)
+    run.hooks = hooks
+    for v in cases:
+        o = obs[v["id"]]
+        key = json.dumps([v.get("tpls"), v.get("srcs"), v.get("ctx"), v.get("fault"), v.get("sp")], sort_keys=True)
+        run.count(key, nontrivial(v) if nontrivial else True)
+        m = compare_render(v, o, check_log=check_log)
+        srcs = (o.get("obs") or {}).get("srcs")
+        if len(run.samples) < 4 and o["st"] == "ok":
+            run.sample({"id": v["id"], "src": srcs, "expected_out": show(bytes(v["exp"]["out"])),
+                        "expected_status": v["exp"]["status"]})
+        if m:
+            why, e, g = m
+            if sigfn:
+                sig = sigfn(v, o, why)
+            elif o["st"] != "ok":
+                sig = "%s %s %s" % (run.prop, v.get("fam", ""), crash_sig(o))
+            else:
+                sig = "%s %s %s" % (run.prop, v.get("fam", ""), why.split(" at event")[0])
+            case = dict(v)
+            case["_src"] = srcs
+            run.mismatch(sig, case, why, expected=e, observed=g)
